@@ -318,6 +318,11 @@ func TestCheck(t *testing.T) {
 		txns[i].stream = mkStream(txns[i])
 	}
 	if f := mc.ReplayFile(); f != "" {
+		var er engineReplay
+		if err := mc.LoadReplay(f, &er); err == nil && er.Family == "engine" {
+			replayEngine(t, r, er)
+			return
+		}
 		var rp replay
 		if err := mc.LoadReplay(f, &rp); err != nil {
 			t.Fatal(err)
@@ -339,7 +344,7 @@ func TestCheck(t *testing.T) {
 		universe = append(universe, flowSpec{p, 0, true}, flowSpec{p, 1, true})
 	}
 	maxSet := 2
-	r.Rule = fmt.Sprintf("all flow sets of size 1..%d over %d (pattern, constraint, user|system) combinations (%d patterns over host h.com and path parts {a,b,{p},*}) x every insertion order x %d transactions (paths of length 0-3 over {a,b,c} x GET/POST x header x query x request/response 200/500) through the real FilterTree; triples: a fixed family in the thorough tier; non-trivial = a transaction for which at least one configured flow's filter accepts; distinct = (flow set, order, transaction)", maxSet, len(universe), len(patterns), len(txns))
+	r.Rule = fmt.Sprintf("all flow sets of size 1..%d over %d (pattern, constraint, user|system) combinations (%d patterns over host h.com and path parts {a,b,{p},*}) x every insertion order x %d transactions (paths of length 0-3 over {a,b,c} x GET/POST x header x query x request/response 200/500) through the real FilterTree; triples: all sets of three over 24 combinations (8 patterns x {none, GET, header} x user flows) in every order; engine level: all sets of <=2 over 48 combinations, alone and next to a quota (system flows) on one of two patterns, written as YAML, loaded into a real Stream by the real loader and driven through the request/response entry points with a recording wrapper around every processor (which flows ran; nothing runs and no action is returned when no filter matches); non-trivial = a transaction for which at least one configured flow's filter accepts; distinct = (flow set, order, transaction)", maxSet, len(universe), len(patterns), len(txns))
 	r.Assume("header and query constraints are asserted on the request side only (the response message carries no request headers/query); status only on the response side",
 		"a trailing wildcard matched with zero further segments is left open (neither required nor forbidden)",
 		"methods limited to GET/POST so the default five-method list of system flows is not at issue")
@@ -368,5 +373,30 @@ func TestCheck(t *testing.T) {
 		}
 		return true
 	})
+	// triples over a reduced universe (8 patterns x {none, GET, hdr} x user flows)
+	var small []flowSpec
+	for _, p := range []string{"h.com", "h.com/*", "h.com/a", "h.com/a/*", "h.com/{p}", "h.com/a/b", "h.com/a/{p}", "h.com/{p}/b"} {
+		for _, c := range []int{0, 1, 3} {
+			small = append(small, flowSpec{p, c, false})
+		}
+	}
+	mc.Subsets(len(small), 3, 3, func(s []int) bool {
+		idx++
+		if !r.Mine(idx) {
+			return true
+		}
+		flows := make([]flowSpec, len(s))
+		for i, k := range s {
+			flows[i] = small[k]
+		}
+		first := map[int][]string{}
+		mc.Permutations(len(flows), func(p []int) bool {
+			evalSet(r, flows, p, txns, first)
+			return true
+		})
+		r.NonTrivial(fmt.Sprint(flows))
+		return true
+	})
+	engineFamily(t, r, txns)
 	r.Finish(t)
 }
